@@ -32,7 +32,7 @@ CLI_PROJ = {
     "C14": [r"^obs T ", r"^obs ret d", r"^obs spin"],
     "C16": [r"^obs panic", r"^obs ret d", r"^obs resolved"],
     "C18": [r"^obs T d\d+ send"],
-    "C02": [r"^obs ret", r"^obs resolved", r"^obs counts"],
+    "C02": [r"^obs resolved", r"^obs settled"],
 }
 
 SRV_PROJ = {
